@@ -339,9 +339,15 @@ def build(ctx):
     def mk(node):
         if ctx.g("kind", node) == "job":
             klass = CJob if ctx.hk("flavour", node, "abs") == "job" else VJob
-            ctx.obj[node] = klass(node, critical=ctx.g("crit", node),
-                                  forever=ctx.g("forever", node),
-                                  label="n%d" % node)
+            if ctx.h.get("lateattr"):
+                # flags are plain attributes too: built with the defaults, assigned afterwards
+                ctx.obj[node] = klass(node, label="n%d" % node)
+                ctx.obj[node].critical = ctx.g("crit", node)
+                ctx.obj[node].forever = ctx.g("forever", node)
+            else:
+                ctx.obj[node] = klass(node, critical=ctx.g("crit", node),
+                                      forever=ctx.g("forever", node),
+                                      label="n%d" % node)
             return ctx.obj[node]
         members = [mk(k) for k in kids[node]]
         win = ctx.g("win", node)
@@ -369,6 +375,10 @@ def build(ctx):
                                    label="n%d" % node, **kwds)
         for key, val in late.items():
             setattr(ctx.obj[node], key, val)
+        if late and not (node == 1 and cfg["pure"]):
+            ctx.obj[node].critical = not ctx.g("crit", node)
+            ctx.obj[node].critical = ctx.g("crit", node)
+            ctx.obj[node].forever = ctx.g("forever", node)
         return ctx.obj[node]
 
     top = mk(1)
